@@ -7,6 +7,7 @@ import (
 	"math/rand"
 	"net/http"
 	"net/url"
+	"regexp"
 	"sort"
 	"strings"
 	"unicode/utf8"
@@ -19,11 +20,12 @@ import (
 
 // totCase: a valid route set and hostile requests (C07).
 type totCase struct {
-	Routes  []string `json:"routes"`
-	Methods []string `json:"methods"`
-	NF      string   `json:"not_found"` // default | custom
-	MW      bool     `json:"app_middleware"`
-	Reqs    []totReq `json:"requests"`
+	Routes  []string   `json:"routes"`
+	Methods []string   `json:"methods"`
+	Cons    [][]string `json:"header_constraints,omitempty"` // per route: Headers() pairs (nil = unconstrained)
+	NF      string     `json:"not_found"`                    // default | custom
+	MW      bool       `json:"app_middleware"`
+	Reqs    []totReq   `json:"requests"`
 }
 
 type totReq struct {
@@ -91,6 +93,11 @@ func genTotCase(rng *rand.Rand) (*totCase, []string) {
 	for _, rt := range set {
 		c.Routes = append(c.Routes, rt.Render())
 		c.Methods = append(c.Methods, meths[rng.Intn(len(meths))])
+		var cons []string
+		if rng.Intn(4) == 0 {
+			cons = []string{"X-K", []string{"^v", "", "1"}[rng.Intn(3)]}
+		}
+		c.Cons = append(c.Cons, cons)
 	}
 	var classes []string
 	for i := 0; i < 30; i++ {
@@ -101,7 +108,18 @@ func genTotCase(rng *rand.Rand) (*totCase, []string) {
 		}
 		rq := totReq{Method: core.B(m), Path: core.B(p)}
 		for k := rng.Intn(3); k > 0; k-- {
-			rq.Hdr = append(rq.Hdr, [2]string{[]string{"X-K", "Accept", "Content-Type", "x-odd header", ""}[rng.Intn(5)], gen.Values[rng.Intn(len(gen.Values))]})
+			rq.Hdr = append(rq.Hdr, [2]string{[]string{"X-K", "X-K", "Accept", "Content-Type", "x-odd header", ""}[rng.Intn(6)], []string{"v1", "1", "", "zz"}[rng.Intn(4)]})
+		}
+		if i > 0 && rng.Intn(4) == 0 {
+			// the same path as an earlier request with other headers: outcomes must not depend on what was served before
+			prev := c.Reqs[rng.Intn(len(c.Reqs))]
+			rq.Method, rq.Path = prev.Method, prev.Path
+			cls = classes[0]
+			for j := range c.Reqs {
+				if c.Reqs[j].Path == prev.Path {
+					cls = classes[j]
+				}
+			}
 		}
 		c.Reqs = append(c.Reqs, rq)
 		classes = append(classes, cls)
@@ -125,13 +143,14 @@ func (o totObs) key() string {
 
 type totInstance struct {
 	f      *flamego.Flame
+	cons   map[int]map[string]*regexp.Regexp
 	models map[string]*rmodel.Model
 	cur    *totObs
 	ok     bool
 }
 
 func buildTot(c *totCase) *totInstance {
-	ti := &totInstance{f: flamego.NewWithLogger(io.Discard), models: map[string]*rmodel.Model{}, ok: true}
+	ti := &totInstance{f: flamego.NewWithLogger(io.Discard), models: map[string]*rmodel.Model{}, ok: true, cons: map[int]map[string]*regexp.Regexp{}}
 	if c.MW {
 		ti.f.Use(func() { ti.cur.mw++ })
 	}
@@ -155,7 +174,7 @@ func buildTot(c *totCase) *totInstance {
 		var pan interface{}
 		func() {
 			defer func() { pan = recover() }()
-			ti.f.Route(m, txt, []flamego.Handler{func(ctx flamego.Context) string {
+			rt := ti.f.Route(m, txt, []flamego.Handler{func(ctx flamego.Context) string {
 				ti.cur.hit = append(ti.cur.hit, i)
 				keys := make([]string, 0, len(ctx.Params()))
 				for k := range ctx.Params() {
@@ -169,6 +188,14 @@ func buildTot(c *totCase) *totInstance {
 				ti.cur.params = sb.String()
 				return fmt.Sprintf("route-%d", i)
 			}})
+			if i < len(c.Cons) && c.Cons[i] != nil {
+				rt.Headers(c.Cons[i]...)
+				cm := map[string]*regexp.Regexp{}
+				for k := 1; k < len(c.Cons[i]); k += 2 {
+					cm[c.Cons[i][k-1]] = regexp.MustCompile(c.Cons[i][k])
+				}
+				ti.cons[i] = cm
+			}
 		}()
 		if pan != nil {
 			ti.ok = false // accept disagreement: C08's subject
@@ -256,15 +283,28 @@ func judgeTotClasses(w *core.W, c *totCase, classes []string) {
 		w.Count("abandoned:accept-disagreement(C08)")
 		return
 	}
+	// the rebuilt instance serves the same requests in reverse order: the outcome of a request must
+	// not depend on what was served before it
+	bOut := make([]totObs, len(c.Reqs))
+	for k := len(c.Reqs) - 1; k >= 0; k-- {
+		bOut[k] = B.serve(c.Reqs[k])
+	}
 	for k, rq := range c.Reqs {
 		w.Eval()
 		var best *rmodel.Deriv
 		if m := A.models[string(rq.Method)]; m != nil {
-			best, _ = m.Dispatch(string(rq.Path), nil)
+			hdr := http.Header{}
+			for _, kv := range rq.Hdr {
+				hdr[kv[0]] = append(hdr[kv[0]], kv[1])
+			}
+			best, _ = m.Dispatch(string(rq.Path), func(ri int) bool {
+				cm, ok := A.cons[ri]
+				return !ok || consPass(cm, hdr)
+			})
 		}
 		a1 := A.serve(rq)
 		a2 := A.serve(rq)
-		b := B.serve(rq)
+		b := bOut[k]
 		if msg := totVerdict(c, string(rq.Method), best, a1, a2, b); msg != "" {
 			w.Violate("totality", c, fmt.Sprintf("request %d %q %q: %s", k, string(rq.Method), clip(string(rq.Path)), msg))
 			return
@@ -301,7 +341,7 @@ func judgeTotClasses(w *core.W, c *totCase, classes []string) {
 }
 
 func runC07(r *core.Run) {
-	r.Rule("valid route sets (1-8 routes of all kinds over 1-3 methods) x 30 hostile requests each: path classes {empty, slashes only, trailing slash, inner empty segments, bad escapes, non-UTF-8 / NUL, long (100-5000 segments or a 10^4-10^5 byte segment), random bytes, exact instance, near miss}; method tokens (the nine known, lower-case, empty, padded, NUL / non-UTF-8 bytes, BREW, 300 bytes); odd header sets; default and custom not-found chain; with and without application middleware. Oracle: recover() around ServeHTTP, counting middleware (exactly one chain), the reference model for which chain, and equality of (chain, status, body, parameters) when the request is repeated on the same instance and on an identically rebuilt one. non-trivial = distinct (route set, method class, path class, chain kind, not-found kind)")
+	r.Rule("valid route sets (1-8 routes of all kinds over 1-3 methods) x 30 hostile requests each: path classes {empty, slashes only, trailing slash, inner empty segments, bad escapes, non-UTF-8 / NUL, long (100-5000 segments or a 10^4-10^5 byte segment), random bytes, exact instance, near miss}; method tokens (the nine known, lower-case, empty, padded, NUL / non-UTF-8 bytes, BREW, 300 bytes); odd header sets; a quarter of the routes header-constrained and earlier paths re-requested with other header sets; default and custom not-found chain; with and without application middleware. Oracle: recover() around ServeHTTP, counting middleware (exactly one chain), the reference model for which chain, and equality of (chain, status, body, parameters) when the request is repeated on the same instance and on an identically rebuilt one that serves the request list in reverse order. non-trivial = distinct (route set, method class, path class, chain kind, not-found kind)")
 	r.Assume("req.URL is non-nil (net/http's contract); handlers are deterministic and do not panic")
 	c07Canaries(r)
 	n := r.N(10000, 800000)
